@@ -1410,7 +1410,7 @@ func extractC03(c *ctxT) {
 	classOnly := c.c03ClassOnly()
 	c.facts["C03.classOnlyParams"] = classOnly
 	var sb strings.Builder
-	sb.WriteString("import FxVerif.Model.C03Go\n\nnamespace FxVerif.Gen.C03\nopen FxVerif.Model.C03\n\n" + csb.String() + "end FxVerif.Gen.C03\n\n-- the generated `path` / `validGen` / `handlerView` of each claim type live in the namespace of the model's claim record (so `c.path` resolves)\nnamespace FxVerif.Model.C03\n\n")
+	sb.WriteString("import FxVerif.Model.C03Prog\n\nnamespace FxVerif.Gen.C03\nopen FxVerif.Model.C03\n\n" + csb.String() + "end FxVerif.Gen.C03\n\n-- the generated `path` / `validGen` / `handlerView` of each claim type live in the namespace of the model's claim record (so `c.path` resolves)\nnamespace FxVerif.Model.C03\n\n")
 	var names []string
 	factClaims := map[string]any{}
 	viewFacts := map[string]any{}
@@ -1576,6 +1576,7 @@ func extractC03(c *ctxT) {
 
 	sb.WriteString(c.c03KeyLayoutLean())
 	sb.WriteString(c.c03DispatchLean())
+	sb.WriteString(c.c03ProgLean())
 	sb.WriteString("end FxVerif.Gen.C03\n")
 	c.write("C03.lean", sb.String())
 	c.facts["C03.claims"] = factClaims
